@@ -181,7 +181,9 @@ fn selection_contract(sizes: [usize; NDC], local_dc: usize, local_idx: usize) {
     while d < NDC {
         if l.sizes[d] > 0 {
             let c = dcs.get(DC_NAMES[d]).map(|c| c.cursor);
-            assert!(c.is_some() && c.unwrap() <= l.sizes[d], "cursors stay inside 0..=len");
+            // not part of C15: this is the inductive hypothesis of THIS harness (it starts from cursors in 0..=len). If the cycler is changed so that
+            // cursors leave that range, the harness no longer covers every reachable state: a model limit (reported as undecided), not a violation.
+            assert!(c.is_some() && c.unwrap() <= l.sizes[d], "vcoll: harness hypothesis not inductive: a selection left a cursor outside 0..=len");
         }
         d += 1;
     }
@@ -403,7 +405,7 @@ shape!(sel_333_22, 3, 3, 3, 2, 2);
 
 /// `Op::SetNodes` (the membership update reaching the selector): afterwards the layout is EXACTLY the new one -- a data centre that is
 /// not in the update is gone (so nodes and whole data centres that left are never selected again), every listed data centre holds
-/// exactly the listed nodes with a fresh cursor, the total is the sum, and the selection cache is emptied.
+/// exactly the listed nodes (cursor inside 0..=len), the total is the sum, and the selection cache is emptied.
 /// Old layout: data centres a (2 nodes) and b (1 node) with arbitrary cursors; new layout: one of five concrete updates (one harness each).
 fn set_nodes_contract(which: u8) {
     let old = layout([2, 1, 0], 0, 0);
@@ -450,7 +452,8 @@ fn set_nodes_contract(which: u8) {
                 }
                 i += 1;
             }
-            assert!(c.cursor == 0, "and a fresh cursor");
+            // (same remark: the selection harnesses start from cursors in 0..=len; a fresh cursor is what the code does, any cursor in range would do)
+            assert!(c.cursor <= new_sizes[d], "vcoll: harness hypothesis not inductive: an update left a cursor outside 0..=len");
             ndc += 1;
             sum += new_sizes[d];
         } else {
